@@ -1,6 +1,1025 @@
-//! C07 — not implemented yet.
-use crate::core::Ctx;
-use serde_json::Value;
+//! C07 — typed path, query and body extraction delivers exact values or stops the handler (DESIGN §5 C07).
+//!
+//! ONE application holds the whole compile-time catalogue of handler signatures the framework accepts
+//! (the 20 `IntoHandler` impls of fang/handler/into_handler.rs: 0–2 params in the forms `P`, `(P,)`, `(P1,P2)`
+//! × 0–4 `FromRequest` items).  Every handler echoes the typed values it received, one line per slot.
+//! Every request of the alphabet goes through the real `Request::read` → `Router::handle` → `Response::send`;
+//! the echo (or "handler did not run" + error status) is compared with a per-slot reference:
+//!   integers  – `str::parse::<T>()` on the RFC 3986 percent-decoded segment (leading `+`: both readings admitted)
+//!   strings   – RFC 3986 percent-decoding + UTF-8 check
+//!   JSON      – serde_json into an equally shaped harness type
+//!   Query / URLEncoded – the small split-on-`&`/`=` + percent-decoding below (anything outside its clean grammar: unclear, never alarmed)
+//!   Multipart – the strict RFC 7578 text-field reader below on a few hand-made bodies
+//!   Text      – UTF-8 check
+//! A case is a pass only if every slot shows its *primary* expected outcome; an outcome that is merely admitted
+//! (the statement is silent) counts as ambiguous.
 
-pub fn run(ctx: &mut Ctx) { ctx.machinery_error("C07 engine not implemented".into()); }
-pub fn replay(ctx: &mut Ctx, _case: &Value) { ctx.machinery_error("C07 engine not implemented".into()); }
+use crate::app::{self, Outcome};
+use crate::core::{esc, panic_kind, strings_over, unesc, Ctx};
+use ohkami::__verif__::{DynItem, DynRouting, HandlerSet, VerifRouter};
+use ohkami::format::{Multipart, Query, Text, URLEncoded, JSON};
+use ohkami::{FromParam, FromRequest, Ohkami, Route};
+use serde_json::{json, Value};
+use std::borrow::Cow;
+
+/* ================================================================================================
+   slot types
+================================================================================================ */
+
+#[derive(Clone, Copy, PartialEq, Eq, Debug)]
+pub enum PTy { String, Cow, Str, U8, U16, U32, U64, Usize, I8, I16, I32, I64, Isize }
+
+impl PTy {
+    pub fn name(self) -> &'static str {
+        match self {
+            PTy::String => "String", PTy::Cow => "Cow", PTy::Str => "str",
+            PTy::U8 => "u8", PTy::U16 => "u16", PTy::U32 => "u32", PTy::U64 => "u64", PTy::Usize => "usize",
+            PTy::I8 => "i8", PTy::I16 => "i16", PTy::I32 => "i32", PTy::I64 => "i64", PTy::Isize => "isize",
+        }
+    }
+    pub fn is_int(self) -> bool { !matches!(self, PTy::String | PTy::Cow | PTy::Str) }
+    pub fn is_signed(self) -> bool { matches!(self, PTy::I8 | PTy::I16 | PTy::I32 | PTy::I64 | PTy::Isize) }
+}
+
+#[derive(Clone, Copy, PartialEq, Eq, Debug)]
+pub enum Fmt { Query, Json, Urlenc, Multipart, Text }
+
+impl Fmt {
+    pub const ALL: [Fmt; 5] = [Fmt::Query, Fmt::Json, Fmt::Urlenc, Fmt::Multipart, Fmt::Text];
+    pub fn name(self) -> &'static str {
+        match self { Fmt::Query => "Query", Fmt::Json => "JSON", Fmt::Urlenc => "URLEncoded", Fmt::Multipart => "Multipart", Fmt::Text => "Text" }
+    }
+    pub fn letter(self) -> char { match self { Fmt::Query => 'q', Fmt::Json => 'j', Fmt::Urlenc => 'u', Fmt::Multipart => 'm', Fmt::Text => 't' } }
+    /// the media type a body item is "under" (the statement's matching Content-Type)
+    pub fn mime(self) -> &'static str {
+        match self { Fmt::Json => "application/json", Fmt::Urlenc => "application/x-www-form-urlencoded", Fmt::Multipart => "multipart/form-data", Fmt::Text => "text/plain", Fmt::Query => "" }
+    }
+}
+
+#[derive(Clone, Copy, PartialEq, Eq, Debug)]
+pub enum SlotTy { Param(PTy), Item(Fmt, /*Option<..>*/ bool) }
+
+impl SlotTy {
+    pub fn name(self) -> String {
+        match self {
+            SlotTy::Param(p) => p.name().to_string(),
+            SlotTy::Item(f, false) => f.name().to_string(),
+            SlotTy::Item(f, true) => format!("Option<{}>", f.name()),
+        }
+    }
+}
+
+/// Implemented by every type that appears in a handler signature of the catalogue: its run-time description
+/// (so that the reference can never be out of sync with the compiled signature) and its canonical echo.
+pub trait Slot: Sized {
+    fn ty() -> SlotTy;
+    fn show(&self) -> String;
+}
+
+impl Slot for String { fn ty() -> SlotTy { SlotTy::Param(PTy::String) } fn show(&self) -> String { format!("String:{:?}", self) } }
+impl Slot for Cow<'static, str> { fn ty() -> SlotTy { SlotTy::Param(PTy::Cow) } fn show(&self) -> String { format!("Cow:{:?}", self.as_ref()) } }
+impl Slot for &'static str { fn ty() -> SlotTy { SlotTy::Param(PTy::Str) } fn show(&self) -> String { format!("str:{:?}", self) } }
+macro_rules! int_slots { ($($t:ty => $v:ident),*) => { $(
+    impl Slot for $t { fn ty() -> SlotTy { SlotTy::Param(PTy::$v) } fn show(&self) -> String { format!("{}:{}", PTy::$v.name(), self) } }
+)* } }
+int_slots! { u8 => U8, u16 => U16, u32 => U32, u64 => U64, usize => Usize, i8 => I8, i16 => I16, i32 => I32, i64 => I64, isize => Isize }
+
+/* payload types: the four structured formats carry a string and (where the codec supports it) a small integer */
+#[derive(ohkami::serde::Deserialize, ohkami::openapi::Schema)]
+pub struct Q { s: String, n: u16 }
+#[derive(ohkami::serde::Deserialize, ohkami::openapi::Schema)]
+pub struct J { s: String, n: u16 }
+#[derive(ohkami::serde::Deserialize, ohkami::openapi::Schema)]
+pub struct U { s: String, n: u16 }
+#[derive(ohkami::serde::Deserialize, ohkami::openapi::Schema)]
+pub struct M { s: String, t: String }
+
+fn show_sn(name: &str, s: &str, n: u16) -> String { format!("{name}{{s:{s:?},n:{n}}}") }
+fn show_st(name: &str, s: &str, t: &str) -> String { format!("{name}{{s:{s:?},t:{t:?}}}") }
+fn show_text(s: &str) -> String { format!("Text({s:?})") }
+
+impl Slot for Query<Q> { fn ty() -> SlotTy { SlotTy::Item(Fmt::Query, false) } fn show(&self) -> String { show_sn("Query", &self.0.s, self.0.n) } }
+impl Slot for JSON<J> { fn ty() -> SlotTy { SlotTy::Item(Fmt::Json, false) } fn show(&self) -> String { show_sn("JSON", &self.0.s, self.0.n) } }
+impl Slot for URLEncoded<U> { fn ty() -> SlotTy { SlotTy::Item(Fmt::Urlenc, false) } fn show(&self) -> String { show_sn("URLEncoded", &self.0.s, self.0.n) } }
+impl Slot for Multipart<M> { fn ty() -> SlotTy { SlotTy::Item(Fmt::Multipart, false) } fn show(&self) -> String { show_st("Multipart", &self.0.s, &self.0.t) } }
+impl Slot for Text<String> { fn ty() -> SlotTy { SlotTy::Item(Fmt::Text, false) } fn show(&self) -> String { show_text(&self.0) } }
+impl<T: Slot> Slot for Option<T> {
+    fn ty() -> SlotTy { match T::ty() { SlotTy::Item(f, false) => SlotTy::Item(f, true), other => panic!("Option of {other:?} is not in the catalogue") } }
+    fn show(&self) -> String { match self { None => "None".to_string(), Some(x) => format!("Some({})", x.show()) } }
+}
+
+/* ================================================================================================
+   the catalogue (compile time) and its run-time description
+================================================================================================ */
+
+#[derive(Clone, Debug)]
+pub struct RouteDesc {
+    /// route pattern as registered, e.g. `/p2/u8/String/:a/:b`
+    pub pattern: String,
+    pub method: &'static str,
+    /// which `IntoHandler` impl serves it: P1 T1 T2 I0..I4 P1+Ik T1+Ik T2+Ik, `P1of2`/`T1of2` = one-param handler on a two-param route
+    pub imp: String,
+    pub route_params: usize,
+    /// (slot name, type) in the order of the handler's arguments; params are `a`, `b`, items `i1`..`i4`
+    pub slots: Vec<(&'static str, SlotTy)>,
+}
+
+pub struct Catalogue { pub items: Vec<DynItem>, pub routes: Vec<RouteDesc> }
+
+const MARK: &str = "RAN";
+/// object-safe face of `Slot::show`, so that the ~1000 handler bodies stay tiny (one out-of-line call each)
+pub trait ShowDyn { fn show_dyn(&self) -> String; }
+impl<T: Slot> ShowDyn for T { #[inline(never)] fn show_dyn(&self) -> String { self.show() } }
+#[inline(never)]
+fn echo(lines: &[(&'static str, &dyn ShowDyn)]) -> String {
+    let mut out = String::from(MARK);
+    for (n, v) in lines { out.push('\n'); out.push_str(n); out.push('='); out.push_str(&v.show_dyn()); }
+    out
+}
+fn leak(s: String) -> &'static str { Box::leak(s.into_boxed_str()) }
+
+impl Catalogue {
+    #[inline(never)]
+    fn add(&mut self, hs: HandlerSet, pattern: &'static str, method: &'static str, imp: &str, k: usize, slots: Vec<(&'static str, SlotTy)>) {
+        let imp = if imp.ends_with('I') { format!("{imp}{k}") } else { imp.to_string() };
+        let route_params = pattern.split('/').filter(|s| s.starts_with(':')).count();
+        self.items.push(DynItem::Handlers(hs));
+        self.routes.push(RouteDesc { pattern: pattern.to_string(), method, imp, route_params, slots });
+    }
+}
+
+fn set_code(slots: &[(&'static str, SlotTy)]) -> String {
+    let mut code = String::new();
+    for f in Fmt::ALL {
+        let st = slots.iter().find_map(|(_, t)| match t { SlotTy::Item(g, opt) if *g == f => Some(if *opt { '2' } else { '1' }), _ => None }).unwrap_or('0');
+        code.push(f.letter()); code.push(st);
+    }
+    code
+}
+fn param_suffix(n: usize) -> &'static str { match n { 0 => "", 1 => "/:a", _ => "/:a/:b" } }
+#[inline(never)]
+fn set_pattern(dir: &str, k: usize, slots: &[(&'static str, SlotTy)], n_params: usize) -> &'static str {
+    leak(format!("/s/{dir}{k}/{}{}", set_code(slots), param_suffix(n_params)))
+}
+#[inline(never)]
+fn param_pattern(dir: &str, slots: &[(&'static str, SlotTy)], n_params: usize) -> &'static str {
+    leak(format!("/{dir}/{}{}", slots.iter().map(|(_, t)| t.name()).collect::<Vec<_>>().join("/"), param_suffix(n_params)))
+}
+
+/* ---- param-only handlers (GET) ---- */
+fn reg_p1<A>(cat: &mut Catalogue, two: bool) where A: FromParam<'static> + Slot + Send + Sync + 'static {
+    let slots = vec![("a", A::ty())];
+    let (dir, imp) = if two { ("p1of2", "P1of2") } else { ("p1", "P1") };
+    let pattern = param_pattern(dir, &slots, if two { 2 } else { 1 });
+    let hs = pattern.GET(|a: A| async move { echo(&[("a", &a as &dyn ShowDyn)]) });
+    cat.add(hs, pattern, "GET", imp, 0, slots);
+}
+fn reg_t1<A>(cat: &mut Catalogue, two: bool) where A: FromParam<'static> + Slot + Send + Sync + 'static {
+    let slots = vec![("a", A::ty())];
+    let (dir, imp) = if two { ("t1of2", "T1of2") } else { ("t1", "T1") };
+    let pattern = param_pattern(dir, &slots, if two { 2 } else { 1 });
+    let hs = pattern.GET(|(a,): (A,)| async move { echo(&[("a", &a as &dyn ShowDyn)]) });
+    cat.add(hs, pattern, "GET", imp, 0, slots);
+}
+fn reg_t2<A, B>(cat: &mut Catalogue)
+where A: FromParam<'static> + Slot + Send + Sync + 'static, B: FromParam<'static> + Slot + Send + Sync + 'static {
+    let slots = vec![("a", A::ty()), ("b", B::ty())];
+    let pattern = param_pattern("p2", &slots, 2);
+    let hs = pattern.GET(|(a, b): (A, B)| async move { echo(&[("a", &a as &dyn ShowDyn), ("b", &b as &dyn ShowDyn)]) });
+    cat.add(hs, pattern, "GET", "T2", 0, slots);
+}
+
+/* ---- handlers with FromRequest items (POST); one generic function per framework impl ---- */
+macro_rules! def_reg_items {
+    ($name:ident, $k:literal; $($I:ident $i:ident $n:literal),*) => {
+        fn $name<$($I),*>(cat: &mut Catalogue) where $($I: FromRequest<'static> + Slot + Send + Sync + 'static),* {
+            let slots: Vec<(&'static str, SlotTy)> = vec![$(($n, <$I as Slot>::ty())),*];
+            let pattern = set_pattern("i", $k, &slots, 0);
+            let hs = pattern.POST(|$($i: $I),*| async move { echo(&[$(($n, &$i as &dyn ShowDyn)),*]) });
+            cat.add(hs, pattern, "POST", "I", $k, slots);
+        }
+    };
+}
+macro_rules! def_reg_p_items {
+    ($name:ident, $k:literal; $($I:ident $i:ident $n:literal),*) => {
+        fn $name<A, $($I),*>(cat: &mut Catalogue) where A: FromParam<'static> + Slot + Send + Sync + 'static, $($I: FromRequest<'static> + Slot + Send + Sync + 'static),* {
+            let slots: Vec<(&'static str, SlotTy)> = vec![("a", A::ty()), $(($n, <$I as Slot>::ty())),*];
+            let pattern = set_pattern("p", $k, &slots, 1);
+            let hs = pattern.POST(|a: A, $($i: $I),*| async move { echo(&[("a", &a as &dyn ShowDyn), $(($n, &$i as &dyn ShowDyn)),*]) });
+            cat.add(hs, pattern, "POST", "P1+I", $k, slots);
+        }
+    };
+}
+macro_rules! def_reg_t_items {
+    ($name:ident, $k:literal; $($I:ident $i:ident $n:literal),*) => {
+        fn $name<A, $($I),*>(cat: &mut Catalogue) where A: FromParam<'static> + Slot + Send + Sync + 'static, $($I: FromRequest<'static> + Slot + Send + Sync + 'static),* {
+            let slots: Vec<(&'static str, SlotTy)> = vec![("a", A::ty()), $(($n, <$I as Slot>::ty())),*];
+            let pattern = set_pattern("t", $k, &slots, 1);
+            let hs = pattern.POST(|(a,): (A,), $($i: $I),*| async move { echo(&[("a", &a as &dyn ShowDyn), $(($n, &$i as &dyn ShowDyn)),*]) });
+            cat.add(hs, pattern, "POST", "T1+I", $k, slots);
+        }
+    };
+}
+macro_rules! def_reg_tt_items {
+    ($name:ident, $k:literal; $($I:ident $i:ident $n:literal),*) => {
+        fn $name<A, B, $($I),*>(cat: &mut Catalogue)
+        where A: FromParam<'static> + Slot + Send + Sync + 'static, B: FromParam<'static> + Slot + Send + Sync + 'static, $($I: FromRequest<'static> + Slot + Send + Sync + 'static),* {
+            let slots: Vec<(&'static str, SlotTy)> = vec![("a", A::ty()), ("b", B::ty()), $(($n, <$I as Slot>::ty())),*];
+            let pattern = set_pattern("tt", $k, &slots, 2);
+            let hs = pattern.POST(|(a, b): (A, B), $($i: $I),*| async move { echo(&[("a", &a as &dyn ShowDyn), ("b", &b as &dyn ShowDyn), $(($n, &$i as &dyn ShowDyn)),*]) });
+            cat.add(hs, pattern, "POST", "T2+I", $k, slots);
+        }
+    };
+}
+def_reg_items!(reg_i1, 1; I1 i1 "i1");
+def_reg_items!(reg_i2, 2; I1 i1 "i1", I2 i2 "i2");
+def_reg_items!(reg_i3, 3; I1 i1 "i1", I2 i2 "i2", I3 i3 "i3");
+def_reg_items!(reg_i4, 4; I1 i1 "i1", I2 i2 "i2", I3 i3 "i3", I4 i4 "i4");
+def_reg_p_items!(reg_p_i1, 1; I1 i1 "i1");
+def_reg_p_items!(reg_p_i2, 2; I1 i1 "i1", I2 i2 "i2");
+def_reg_p_items!(reg_p_i3, 3; I1 i1 "i1", I2 i2 "i2", I3 i3 "i3");
+def_reg_p_items!(reg_p_i4, 4; I1 i1 "i1", I2 i2 "i2", I3 i3 "i3", I4 i4 "i4");
+def_reg_t_items!(reg_t_i1, 1; I1 i1 "i1");
+def_reg_t_items!(reg_t_i2, 2; I1 i1 "i1", I2 i2 "i2");
+def_reg_t_items!(reg_t_i3, 3; I1 i1 "i1", I2 i2 "i2", I3 i3 "i3");
+def_reg_t_items!(reg_t_i4, 4; I1 i1 "i1", I2 i2 "i2", I3 i3 "i3", I4 i4 "i4");
+def_reg_tt_items!(reg_tt_i1, 1; I1 i1 "i1");
+def_reg_tt_items!(reg_tt_i2, 2; I1 i1 "i1", I2 i2 "i2");
+def_reg_tt_items!(reg_tt_i3, 3; I1 i1 "i1", I2 i2 "i2", I3 i3 "i3");
+def_reg_tt_items!(reg_tt_i4, 4; I1 i1 "i1", I2 i2 "i2", I3 i3 "i3", I4 i4 "i4");
+
+fn reg_i0(cat: &mut Catalogue) {
+    let hs = "/s/i0/q0j0u0m0t0".POST(|| async move { echo(&[]) });
+    cat.add(hs, "/s/i0/q0j0u0m0t0", "POST", "I", 0, vec![]);
+}
+
+/* ---- the type lists ---- */
+macro_rules! with_ptypes { ($cb:ident $($args:tt)*) => {
+    $cb!{ [$($args)*] String, Cow<'static, str>, &'static str, u8, u16, u32, u64, usize, i8, i16, i32, i64, isize }
+} }
+macro_rules! reg_singles { ([$cat:ident] $($t:ty),*) => { $(
+    reg_p1::<$t>(&mut $cat, false); reg_t1::<$t>(&mut $cat, false); reg_p1::<$t>(&mut $cat, true); reg_t1::<$t>(&mut $cat, true);
+)* } }
+macro_rules! reg_pairs { ([$cat:ident] $($t:ty),*) => { $( with_ptypes!(reg_pair_row $cat, $t); )* } }
+macro_rules! reg_pair_row { ([$cat:ident, $t1:ty] $($t2:ty),*) => { $( reg_t2::<$t1, $t2>(&mut $cat); )* } }
+
+/// every extractor set: each of the five extractors absent / required / `Option<..>`, sizes 1..=4 (3^5 - 1 - 32 = 210 sets).
+/// Every set is registered under the no-param form and under exactly one of the three param forms
+/// (`P`, `(P,)`, `(P1,P2)`: chosen by the sum of the five states mod 3, so each form meets ~70 sets of all sizes;
+/// registering all 4 x 210 costs 30 s more compile time for no new framework code).  The item order differs per
+/// form (natural, natural, reversed, rotated) so that extractor types meet different item positions; the param
+/// types differ per arity.
+macro_rules! reg_sets {
+    (@go $cat:ident ($p0:tt $p1:tt $p2:tt) [$($acc:ty,)*]) => { reg_set!($cat $p0; $($acc,)*); };
+    (@go $cat:ident ($p0:tt $p1:tt $p2:tt) [$($acc:ty,)*] ($x:ty) $($rest:tt)*) => {
+        reg_sets!(@go $cat ($p0 $p1 $p2) [$($acc,)*] $($rest)*);
+        reg_sets!(@go $cat ($p1 $p2 $p0) [$($acc,)* $x,] $($rest)*);
+        reg_sets!(@go $cat ($p2 $p0 $p1) [$($acc,)* Option<$x>,] $($rest)*);
+    };
+    ($cat:ident) => { reg_sets!(@go $cat (P T TT) [] (Query<Q>) (JSON<J>) (URLEncoded<U>) (Multipart<M>) (Text<String>)); };
+}
+macro_rules! reg_set {
+    ($cat:ident $f:tt; ) => { reg_i0(&mut $cat); };
+    ($cat:ident P;  $a:ty,) => { reg_i1::<$a>(&mut $cat); reg_p_i1::<u8, $a>(&mut $cat); };
+    ($cat:ident T;  $a:ty,) => { reg_i1::<$a>(&mut $cat); reg_t_i1::<String, $a>(&mut $cat); };
+    ($cat:ident TT; $a:ty,) => { reg_i1::<$a>(&mut $cat); reg_tt_i1::<i16, String, $a>(&mut $cat); };
+    ($cat:ident P;  $a:ty, $b:ty,) => { reg_i2::<$a, $b>(&mut $cat); reg_p_i2::<String, $a, $b>(&mut $cat); };
+    ($cat:ident T;  $a:ty, $b:ty,) => { reg_i2::<$a, $b>(&mut $cat); reg_t_i2::<i64, $b, $a>(&mut $cat); };
+    ($cat:ident TT; $a:ty, $b:ty,) => { reg_i2::<$a, $b>(&mut $cat); reg_tt_i2::<u64, u8, $b, $a>(&mut $cat); };
+    ($cat:ident P;  $a:ty, $b:ty, $c:ty,) => { reg_i3::<$a, $b, $c>(&mut $cat); reg_p_i3::<i32, $a, $b, $c>(&mut $cat); };
+    ($cat:ident T;  $a:ty, $b:ty, $c:ty,) => { reg_i3::<$a, $b, $c>(&mut $cat); reg_t_i3::<&'static str, $c, $b, $a>(&mut $cat); };
+    ($cat:ident TT; $a:ty, $b:ty, $c:ty,) => { reg_i3::<$a, $b, $c>(&mut $cat); reg_tt_i3::<String, Cow<'static, str>, $b, $c, $a>(&mut $cat); };
+    ($cat:ident P;  $a:ty, $b:ty, $c:ty, $d:ty,) => { reg_i4::<$a, $b, $c, $d>(&mut $cat); reg_p_i4::<Cow<'static, str>, $a, $b, $c, $d>(&mut $cat); };
+    ($cat:ident T;  $a:ty, $b:ty, $c:ty, $d:ty,) => { reg_i4::<$a, $b, $c, $d>(&mut $cat); reg_t_i4::<u16, $d, $c, $b, $a>(&mut $cat); };
+    ($cat:ident TT; $a:ty, $b:ty, $c:ty, $d:ty,) => { reg_i4::<$a, $b, $c, $d>(&mut $cat); reg_tt_i4::<isize, u32, $b, $c, $d, $a>(&mut $cat); };
+    ($cat:ident $f:tt; $a:ty, $b:ty, $c:ty, $d:ty, $e:ty,) => { /* five items: no such handler exists */ };
+}
+
+pub fn catalogue() -> Catalogue {
+    let mut cat = Catalogue { items: Vec::new(), routes: Vec::new() };
+    with_ptypes!(reg_singles cat);
+    with_ptypes!(reg_pairs cat);
+    reg_sets!(cat);
+    cat
+}
+
+pub struct Subject { pub router: VerifRouter, pub routes: Vec<RouteDesc> }
+
+pub fn subject() -> Result<Subject, String> {
+    crate::core::guarded(|| {
+        let cat = catalogue();
+        let router = VerifRouter::from(Ohkami::new(DynRouting(cat.items)));
+        Subject { router, routes: cat.routes }
+    })
+}
+
+/* ================================================================================================
+   requests
+================================================================================================ */
+
+#[derive(Clone, Debug, PartialEq, Eq)]
+pub struct Req {
+    /// raw (still percent-encoded) segments substituted for `:a`, `:b`
+    pub params: Vec<Vec<u8>>,
+    /// None: no `?`;  Some(b""): a bare `?`
+    pub query: Option<Vec<u8>>,
+    pub ctype: Option<String>,
+    /// None: no Content-Length header;  Some(b""): `Content-Length: 0`
+    pub body: Option<Vec<u8>>,
+}
+
+impl Req {
+    pub fn path(&self, route: &RouteDesc) -> Vec<u8> {
+        let mut out = Vec::new();
+        for seg in route.pattern.split('/').skip(1) {
+            out.push(b'/');
+            match seg { ":a" => out.extend_from_slice(&self.params[0]), ":b" => out.extend_from_slice(&self.params[1]), s => out.extend_from_slice(s.as_bytes()) }
+        }
+        out
+    }
+    pub fn bytes(&self, route: &RouteDesc) -> Vec<u8> {
+        let mut v = Vec::with_capacity(256);
+        v.extend_from_slice(route.method.as_bytes()); v.push(b' ');
+        v.extend_from_slice(&self.path(route));
+        if let Some(q) = &self.query { v.push(b'?'); v.extend_from_slice(q); }
+        v.extend_from_slice(b" HTTP/1.1\r\nHost: h\r\n");
+        if let Some(ct) = &self.ctype { v.extend_from_slice(b"Content-Type: "); v.extend_from_slice(ct.as_bytes()); v.extend_from_slice(b"\r\n"); }
+        if let Some(b) = &self.body { v.extend_from_slice(format!("Content-Length: {}\r\n", b.len()).as_bytes()); }
+        v.extend_from_slice(b"\r\n");
+        if let Some(b) = &self.body { v.extend_from_slice(b); }
+        v
+    }
+    pub fn to_json(&self, route: &RouteDesc) -> Value {
+        json!({"route": route.pattern, "method": route.method, "signature": route.slots.iter().map(|(n, t)| format!("{n}:{}", t.name())).collect::<Vec<_>>(),
+               "params": self.params.iter().map(|p| esc(p)).collect::<Vec<_>>(),
+               "query": self.query.as_ref().map(|q| esc(q)), "content_type": self.ctype, "body": self.body.as_ref().map(|b| esc(b)),
+               "request": esc(&self.bytes(route))})
+    }
+    pub fn from_json(v: &Value) -> Option<Req> {
+        Some(Req {
+            params: v.get("params")?.as_array()?.iter().map(|p| p.as_str().map(unesc)).collect::<Option<Vec<_>>>()?,
+            query: v.get("query").and_then(|q| q.as_str()).map(unesc),
+            ctype: v.get("content_type").and_then(|q| q.as_str()).map(str::to_string),
+            body: v.get("body").and_then(|q| q.as_str()).map(unesc),
+        })
+    }
+}
+
+/* ---- param segment alphabet ---- */
+pub const ALPHA: [&[u8]; 8] = [b"0", b"1", b"9", b"-", b"+", b"a", b"%31", b"%FF"];
+
+/// per-width boundary values (every type sees all of them), 64-bit overflow values, leading-zero and escaped forms
+pub fn boundary_segments() -> Vec<Vec<u8>> {
+    let mut v: Vec<String> = vec![];
+    for bits in [8u32, 16, 32, 64] {
+        let umax: i128 = (1i128 << bits) - 1;
+        let imax: i128 = (1i128 << (bits - 1)) - 1;
+        let imin: i128 = -(1i128 << (bits - 1));
+        for x in [imin - 1, imin, imax, imax + 1, umax, umax + 1] { v.push(x.to_string()); }
+        v.push(format!("0{umax}")); v.push(format!("0{imax}")); v.push(format!("-0{}", -imin));
+        v.push(format!("+{umax}")); v.push(format!("+{imax}"));
+    }
+    let two64: i128 = 1i128 << 64;
+    for x in [-1, 0, two64 + 1, -two64, -(two64 + 1), two64 * 10 + 5, (1i128 << 63) + (1i128 << 62)] { v.push(x.to_string()); }
+    v.push(format!("1{}", "0".repeat(40)));                 // 10^40
+    v.push(format!("-1{}", "0".repeat(40)));
+    v.push(format!("{}7", "0".repeat(40)));                 // 41 characters, denotes 7
+    v.push("0".repeat(40));
+    for s in ["00", "007", "-007", "-0", "+0", "-00", "12abc", "12%20", "7f", "0x10", "1e3", "1.0", "1_0", "%2D1", "%2B1", "1%30", "25%35", "%32%35%36", "%2d12%38", "12%41", "x", "abc", "a%20b", "%E3%81%82", "%e3%81", "%00"] { v.push(s.to_string()); }
+    let mut out: Vec<Vec<u8>> = vec![];
+    for s in v { let b = s.into_bytes(); if !out.contains(&b) { out.push(b) } }
+    out
+}
+
+/// all non-empty strings of at most `max_len` tokens over ALPHA, then the boundary values not among them
+pub fn segments(max_len: usize) -> Vec<Vec<u8>> {
+    let mut out: Vec<Vec<u8>> = strings_over(&ALPHA, max_len).filter(|s| !s.is_empty()).collect();
+    let seen: std::collections::HashSet<Vec<u8>> = out.iter().cloned().collect();
+    for b in boundary_segments() { if !seen.contains(&b) { out.push(b) } }
+    out
+}
+
+/// canonical unremarkable value of a param type (used when a slot is not the one being varied)
+pub fn plain_segment(t: PTy, second: bool) -> &'static [u8] { match (t.is_int(), second) { (true, false) => b"7", (true, true) => b"8", (false, false) => b"x", (false, true) => b"y" } }
+
+/* ---- content types, bodies, queries ---- */
+pub const BOUNDARY: &str = "XbX";
+
+pub fn content_types() -> Vec<Option<String>> {
+    let mut v: Vec<Option<String>> = vec![None];
+    for f in [Fmt::Json, Fmt::Urlenc, Fmt::Multipart, Fmt::Text] {
+        let m = f.mime();
+        let bp = if f == Fmt::Multipart { format!("; boundary={BOUNDARY}") } else { String::new() };
+        v.push(Some(format!("{m}{bp}")));
+        v.push(Some(format!("{m}{bp}; charset=utf-8")));
+        v.push(Some(format!("{}{bp}", m.to_ascii_uppercase())));
+        v.push(Some(format!("{m}x{bp}")));
+        v.push(Some(format!("text/html; x={m}")));         // another type whose parameter mentions this one
+    }
+    v.push(Some("text/html".to_string()));
+    v
+}
+
+fn mp(parts: &[(&str, &str)], close: bool) -> Vec<u8> {
+    let mut s = String::new();
+    for (n, c) in parts { s.push_str(&format!("--{BOUNDARY}\r\nContent-Disposition: form-data; name=\"{n}\"\r\n\r\n{c}\r\n")); }
+    if parts.is_empty() { s.push_str(&format!("--{BOUNDARY}\r\n")) }
+    if close { s.push_str(&format!("--{BOUNDARY}--\r\n")) }
+    s.into_bytes()
+}
+
+pub fn bodies() -> Vec<(&'static str, Option<Vec<u8>>)> {
+    vec![
+        ("absent", None),
+        ("empty", Some(vec![])),
+        ("json-valid", Some(br#"{"s":"a","n":7}"#.to_vec())),
+        ("json-unknown-field", Some(br#"{"s":"a b","z":[1],"n":65535}"#.to_vec())),
+        ("json-invalid-syntax", Some(br#"{"s":"a","n":7"#.to_vec())),
+        ("json-invalid-type", Some(br#"{"s":"a","n":"7"}"#.to_vec())),
+        ("json-trailing-garbage", Some(br#"{"s":"a","n":7}x"#.to_vec())),
+        ("urlenc-valid", Some(b"s=a&n=7".to_vec())),
+        ("urlenc-unknown-field", Some(b"n=65535&z=1&s=a.b".to_vec())),
+        ("urlenc-escape", Some(b"s=%31a%20&n=0".to_vec())),
+        ("urlenc-missing-field", Some(b"s=a".to_vec())),
+        ("urlenc-bad-int", Some(b"s=a&n=7a".to_vec())),
+        ("urlenc-int-overflow", Some(b"s=a&n=65536".to_vec())),
+        ("urlenc-non-utf8", Some(b"s=%FF&n=7".to_vec())),
+        ("multipart-valid", Some(mp(&[("s", "a"), ("t", "b c")], true))),
+        ("multipart-unknown-field", Some(mp(&[("t", "b"), ("z", "1"), ("s", "a")], true))),
+        ("multipart-missing-field", Some(mp(&[("s", "a")], true))),
+        ("multipart-no-close", Some(mp(&[("s", "a"), ("t", "b")], false))),
+        ("text-valid", Some(b"hello".to_vec())),
+        ("text-non-utf8", Some(b"\xff\xfeab".to_vec())),
+    ]
+}
+
+pub fn queries() -> Vec<(&'static str, Option<Vec<u8>>)> {
+    vec![
+        ("absent", None),
+        ("valid", Some(b"s=a&n=7".to_vec())),
+        ("missing-field", Some(b"s=a".to_vec())),
+        ("empty", Some(vec![])),
+        ("reordered", Some(b"n=65535&s=a.b".to_vec())),
+        ("unknown-field", Some(b"s=a&z=1&n=7".to_vec())),
+        ("only-unknown-field", Some(b"z=1".to_vec())),
+        ("escape", Some(b"s=%31a%20&n=0".to_vec())),
+        ("empty-string", Some(b"s=&n=1".to_vec())),
+        ("bad-int", Some(b"s=a&n=7a".to_vec())),
+        ("int-overflow", Some(b"s=a&n=65536".to_vec())),
+        ("negative-int", Some(b"s=a&n=-1".to_vec())),
+        ("non-utf8", Some(b"s=%FF&n=7".to_vec())),
+        ("plus-in-string", Some(b"s=a+b&n=7".to_vec())),
+        ("escaped-int", Some(b"s=a&n=%37".to_vec())),
+        ("duplicate-field", Some(b"s=a&n=7&n=8".to_vec())),
+    ]
+}
+
+fn label_of(table: &[(&'static str, Option<Vec<u8>>)], x: &Option<Vec<u8>>) -> &'static str {
+    table.iter().find(|(_, v)| v == x).map(|(l, _)| *l).unwrap_or("custom")
+}
+
+/* ================================================================================================
+   reference
+================================================================================================ */
+
+/// strict RFC 3986 percent-decoding: `%` must be followed by two hex digits
+pub fn pct_decode(raw: &[u8]) -> Option<Vec<u8>> {
+    let mut out = Vec::with_capacity(raw.len());
+    let mut i = 0;
+    while i < raw.len() {
+        if raw[i] == b'%' {
+            let h = raw.get(i + 1..i + 3)?;
+            if !h.iter().all(u8::is_ascii_hexdigit) { return None }
+            out.push(u8::from_str_radix(std::str::from_utf8(h).ok()?, 16).ok()?);
+            i += 3;
+        } else { out.push(raw[i]); i += 1 }
+    }
+    Some(out)
+}
+
+#[derive(Clone, Debug, PartialEq, Eq)]
+pub enum Exp { Val(String), Stop }
+
+/// what one slot may show
+#[derive(Clone, Debug)]
+pub struct Adm {
+    pub primary: Exp,
+    /// outcomes the statement does not exclude (observing one of them makes the case `ambiguous`)
+    pub alts: Vec<Exp>,
+    /// the reference has no opinion at all on this slot
+    pub any: bool,
+    /// why outcomes other than the primary are admitted (key of the ambiguous counter)
+    pub why: &'static str,
+    /// input-shape feature of this slot (enters the class id)
+    pub feature: String,
+    pub trivial: bool,
+    /// the input is one where a partial / prefix reading differs from the whole reading
+    pub collision: bool,
+}
+impl Adm {
+    fn admits(&self, e: &Exp) -> bool { self.any || self.primary == *e || self.alts.contains(e) }
+    fn admits_stop(&self) -> bool { self.admits(&Exp::Stop) }
+}
+
+fn parse_int(t: PTy, s: &str) -> Option<String> {
+    macro_rules! p { ($ty:ty) => { s.parse::<$ty>().ok().map(|v| format!("{}:{}", t.name(), v)) } }
+    match t {
+        PTy::U8 => p!(u8), PTy::U16 => p!(u16), PTy::U32 => p!(u32), PTy::U64 => p!(u64), PTy::Usize => p!(usize),
+        PTy::I8 => p!(i8), PTy::I16 => p!(i16), PTy::I32 => p!(i32), PTy::I64 => p!(i64), PTy::Isize => p!(isize),
+        _ => None,
+    }
+}
+fn int_limits(t: PTy) -> (i128, i128) {
+    match t {
+        PTy::U8 => (0, u8::MAX as i128), PTy::U16 => (0, u16::MAX as i128), PTy::U32 => (0, u32::MAX as i128),
+        PTy::U64 | PTy::Usize => (0, u64::MAX as i128),
+        PTy::I8 => (i8::MIN as i128, i8::MAX as i128), PTy::I16 => (i16::MIN as i128, i16::MAX as i128), PTy::I32 => (i32::MIN as i128, i32::MAX as i128),
+        PTy::I64 | PTy::Isize => (i64::MIN as i128, i64::MAX as i128),
+        _ => (0, 0),
+    }
+}
+
+/// label of a decoded segment relative to an integer type (labels only; the verdict is `str::parse`):
+/// a magnitude class plus the modifiers `+plus-sign`, `+leading-zero`
+pub fn int_feature(t: PTy, s: &str) -> String {
+    let (sign, digits) = match s.as_bytes().first() { Some(b'-') => (Some('-'), &s[1..]), Some(b'+') => (Some('+'), &s[1..]), _ => (None, s) };
+    let nd = digits.bytes().take_while(u8::is_ascii_digit).count();
+    if nd == 0 { return "garbage".into() }
+    if nd < digits.len() { return "trailing-garbage".into() }
+    if sign == Some('-') && !t.is_signed() { return "minus-sign-unsigned".into() }
+    let stripped = digits.trim_start_matches('0');
+    let mag: Option<i128> = if stripped.len() <= 30 { Some(if stripped.is_empty() { 0 } else { stripped.parse().unwrap() }) } else { None };
+    let val = mag.map(|m| if sign == Some('-') { -m } else { m });
+    let (lo, hi) = int_limits(t);
+    let base = match val {
+        Some(v) if v >= lo && v <= hi => {
+            if sign == Some('-') && v == 0 { "negative-zero" }
+            else if v == i64::MIN as i128 { "i64-min" }
+            else if v == lo && t.is_signed() { "min" }
+            else if v == hi { "max" }
+            else { "in-range" }
+        }
+        Some(v) if v > hi => if v <= i64::MAX as i128 { "above-max:fits-i64" } else if v <= u64::MAX as i128 { "above-max:fits-u64" } else { "above-max:beyond-u64" },
+        Some(v) => if v > i64::MIN as i128 { "below-min:fits-i64" } else if v == i64::MIN as i128 { "i64-min:below-min" } else { "below-min:beyond-i64" },
+        None => if sign == Some('-') { "below-min:beyond-i64" } else { "above-max:beyond-u64" },
+    };
+    let mut f = base.to_string();
+    if sign == Some('+') { f.push_str("+plus-sign") }
+    if digits.len() > 1 && digits.starts_with('0') { f.push_str("+leading-zero") }
+    f
+}
+
+pub fn ref_param(t: PTy, raw: &[u8]) -> Adm {
+    let escaped = raw.contains(&b'%');
+    let esc_tag = |f: &str| if escaped { format!("{f}+escape") } else { f.to_string() };
+    let Some(dec) = pct_decode(raw) else {
+        return Adm { primary: Exp::Stop, alts: vec![], any: true, why: "malformed-escape", feature: "malformed-escape".into(), trivial: false, collision: false }
+    };
+    let Ok(s) = String::from_utf8(dec) else {
+        return Adm { primary: Exp::Stop, alts: vec![], any: false, why: "", feature: "non-utf8-escape".into(), trivial: false, collision: true }
+    };
+    match t {
+        PTy::String => Adm { primary: Exp::Val(format!("String:{s:?}")), alts: vec![], any: false, why: "", feature: esc_tag("string"), trivial: !escaped, collision: escaped },
+        PTy::Cow => Adm { primary: Exp::Val(format!("Cow:{s:?}")), alts: vec![], any: false, why: "", feature: esc_tag("string"), trivial: !escaped, collision: escaped },
+        // `&str` cannot hold a decoded segment; the framework documents that it refuses escaped segments
+        PTy::Str => Adm { primary: Exp::Val(format!("str:{s:?}")), alts: if escaped { vec![Exp::Stop] } else { vec![] }, any: false, why: "&str-param-with-escape", feature: esc_tag("string"), trivial: !escaped, collision: escaped },
+        _ => {
+            let f = int_feature(t, &s);
+            let (primary, alts) = match parse_int(t, &s) {
+                Some(v) => (Exp::Val(v), if f.contains("+plus-sign") { vec![Exp::Stop] } else { vec![] }),
+                None => (Exp::Stop, vec![]),
+            };
+            Adm { primary, alts, any: false, why: "leading-plus-sign", trivial: f == "in-range" && !escaped, collision: (f != "in-range" && f != "garbage") || escaped, feature: esc_tag(&f) }
+        }
+    }
+}
+
+/* ---- Query / URLEncoded: `s: String, n: u16` ---- */
+#[derive(Clone, Debug, PartialEq, Eq)]
+pub enum Dec<T> { Valid(T), Invalid, Unclear }
+
+/// Clean grammar only: pairs `key=value` joined by `&`, key of [A-Za-z0-9_], value of unreserved characters and
+/// well-formed escapes.  Everything else (`+`, a second `=`, empty pieces, escaped keys, duplicate known keys,
+/// escapes inside the integer) is `Unclear`: the codec's own property (C09) decides those.
+pub fn urlenc_sn(input: &[u8]) -> Dec<(String, u16)> {
+    if input.is_empty() { return Dec::Invalid }   // no fields at all: `s` and `n` are missing under every reading
+    let (mut s, mut n): (Option<&[u8]>, Option<&[u8]>) = (None, None);
+    for piece in input.split(|b| *b == b'&') {
+        let mut it = piece.splitn(2, |b| *b == b'=');
+        let (k, v) = match (it.next(), it.next()) { (Some(k), Some(v)) => (k, v), _ => return Dec::Unclear };
+        if k.is_empty() || !k.iter().all(|b| b.is_ascii_alphanumeric() || *b == b'_') { return Dec::Unclear }
+        let mut i = 0;
+        while i < v.len() {
+            match v[i] {
+                b'%' => { if !v.get(i + 1..i + 3).is_some_and(|h| h.iter().all(u8::is_ascii_hexdigit)) { return Dec::Unclear } i += 3 }
+                b if b.is_ascii_alphanumeric() || matches!(b, b'_' | b'.' | b'~' | b'-') => i += 1,
+                _ => return Dec::Unclear,
+            }
+        }
+        match k { b"s" => { if s.replace(v).is_some() { return Dec::Unclear } } b"n" => { if n.replace(v).is_some() { return Dec::Unclear } } _ => {} }
+    }
+    let (Some(s), Some(n)) = (s, n) else { return Dec::Invalid };
+    if n.contains(&b'%') { return Dec::Unclear }
+    let Ok(sv) = String::from_utf8(pct_decode(s).expect("escapes were checked")) else { return Dec::Invalid };
+    match std::str::from_utf8(n).unwrap().parse::<u16>() { Ok(nv) => Dec::Valid((sv, nv)), Err(_) => Dec::Invalid }
+}
+
+/* ---- JSON: serde_json into an equally shaped type ---- */
+#[derive(serde::Deserialize)]
+struct RefSN { s: String, n: u16 }
+pub fn json_sn(input: &[u8]) -> Dec<(String, u16)> {
+    match serde_json::from_slice::<RefSN>(input) { Ok(v) => Dec::Valid((v.s, v.n)), Err(_) => Dec::Invalid }
+}
+
+/* ---- Multipart: strict reader for text fields `s`, `t` ---- */
+fn find(h: &[u8], n: &[u8]) -> Option<usize> { if n.is_empty() || h.len() < n.len() { return None } h.windows(n.len()).position(|w| w == n) }
+
+pub fn multipart_st(input: &[u8], boundary: Option<&str>) -> Dec<(String, String)> {
+    if !input.starts_with(b"--") { return Dec::Invalid }         // cannot be a multipart body under any boundary
+    let Some(boundary) = boundary else { return Dec::Unclear };
+    let delim = format!("--{boundary}").into_bytes();
+    if !input.starts_with(&delim) { return Dec::Unclear }
+    let mut rest = &input[delim.len()..];
+    let sep = [b"\r\n".as_slice(), &delim].concat();
+    let (mut s, mut t): (Option<String>, Option<String>) = (None, None);
+    loop {
+        if rest.starts_with(b"--") { return if &rest[2..] == b"\r\n" || rest.len() == 2 { match (s, t) { (Some(s), Some(t)) => Dec::Valid((s, t)), _ => Dec::Invalid } } else { Dec::Unclear } }
+        if !rest.starts_with(b"\r\n") { return if rest.is_empty() { Dec::Invalid /* no close-delimiter (RFC 2046 5.1.1) */ } else { Dec::Unclear } }
+        rest = &rest[2..];
+        if rest.is_empty() { return Dec::Invalid }
+        let Some(hend) = find(rest, b"\r\n\r\n") else { return Dec::Unclear };
+        let head = &rest[..hend];
+        let Some(name) = std::str::from_utf8(head).ok().and_then(|h| h.strip_prefix("Content-Disposition: form-data; name=\"")).and_then(|h| h.strip_suffix('"')) else { return Dec::Unclear };
+        if name.contains('"') || name.contains('\r') { return Dec::Unclear }
+        let after = &rest[hend + 4..];
+        let Some(cend) = find(after, &sep) else { return Dec::Invalid /* part not terminated by a delimiter */ };
+        let Ok(content) = std::str::from_utf8(&after[..cend]) else { return Dec::Invalid };
+        match name { "s" => { if s.replace(content.to_string()).is_some() { return Dec::Unclear } } "t" => { if t.replace(content.to_string()).is_some() { return Dec::Unclear } } _ => {} }
+        rest = &after[cend + sep.len()..];
+    }
+}
+
+/* ---- Content-Type relation ---- */
+#[derive(Clone, Copy, Debug, PartialEq, Eq)]
+pub enum CtRel { Absent, Exact, WithParams, CaseVariant, LongerPrefix, OtherMentioning, Other }
+impl CtRel {
+    fn label(self) -> &'static str { match self { CtRel::Absent => "absent", CtRel::Exact => "exact", CtRel::WithParams => "params", CtRel::CaseVariant => "case-variant", CtRel::LongerPrefix => "longer-prefix", CtRel::OtherMentioning => "other-mentioning-type", CtRel::Other => "other" } }
+}
+pub fn ct_relation(f: Fmt, ct: Option<&str>) -> CtRel {
+    let Some(ct) = ct else { return CtRel::Absent };
+    let essence = ct.split(';').next().unwrap().trim_matches(|c| c == ' ' || c == '\t');
+    let has_params = ct.contains(';');
+    // multipart/form-data requires its boundary parameter: with it the type is "exact", a further parameter makes "params"
+    let extra_params = if f == Fmt::Multipart { ct.matches(';').count() > 1 } else { has_params };
+    if essence == f.mime() { if extra_params { CtRel::WithParams } else { CtRel::Exact } }
+    else if essence.eq_ignore_ascii_case(f.mime()) { CtRel::CaseVariant }
+    else if essence.starts_with(f.mime()) { CtRel::LongerPrefix }
+    else if ct.contains(f.mime()) { CtRel::OtherMentioning }
+    else { CtRel::Other }
+}
+fn boundary_param(ct: Option<&str>) -> Option<&str> {
+    ct?.split(';').skip(1).find_map(|p| p.trim().strip_prefix("boundary="))
+}
+
+fn body_dec(f: Fmt, body: &[u8], ct: Option<&str>) -> Dec<String> {
+    match f {
+        Fmt::Json => match json_sn(body) { Dec::Valid((s, n)) => Dec::Valid(show_sn("JSON", &s, n)), Dec::Invalid => Dec::Invalid, Dec::Unclear => Dec::Unclear },
+        Fmt::Urlenc => match urlenc_sn(body) { Dec::Valid((s, n)) => Dec::Valid(show_sn("URLEncoded", &s, n)), Dec::Invalid => Dec::Invalid, Dec::Unclear => Dec::Unclear },
+        Fmt::Multipart => match multipart_st(body, boundary_param(ct)) { Dec::Valid((s, t)) => Dec::Valid(show_st("Multipart", &s, &t)), Dec::Invalid => Dec::Invalid, Dec::Unclear => Dec::Unclear },
+        Fmt::Text => match std::str::from_utf8(body) { Ok(s) => Dec::Valid(show_text(s)), Err(_) => Dec::Invalid },
+        Fmt::Query => unreachable!(),
+    }
+}
+
+pub fn ref_item(f: Fmt, optional: bool, req: &Req) -> Adm {
+    let some = |v: &str| if optional { format!("Some({v})") } else { v.to_string() };
+    let none = Exp::Val("None".to_string());
+    if f == Fmt::Query {
+        let label = label_of(&queries(), &req.query);
+        let feature = format!("query:{label}");
+        let carried = req.query.as_ref().is_some_and(|q| !q.is_empty());
+        let dec = urlenc_sn(req.query.as_deref().unwrap_or(b""));
+        let (primary, alts, any, why) = match (&dec, optional, carried) {
+            (Dec::Unclear, _, _) => (Exp::Stop, vec![], true, "urlencoded-outside-clean-grammar"),
+            // the statement does not say whether a request without a query string "carries" a Query item
+            (_, true, false) => (none, vec![Exp::Stop], false, "Option<Query>-without-query-string"),
+            (Dec::Valid((s, n)), _, _) => (Exp::Val(some(&show_sn("Query", s, *n))), vec![], false, ""),
+            (Dec::Invalid, _, _) => (Exp::Stop, vec![], false, ""),
+        };
+        return Adm { primary, alts, any, why, feature, trivial: matches!(label, "absent" | "valid"), collision: matches!(label, "escape" | "unknown-field" | "reordered") }
+    }
+    let ct = req.ctype.as_deref();
+    let rel = ct_relation(f, ct);
+    let blabel = label_of(&bodies(), &req.body);
+    let feature = if matches!(rel, CtRel::Exact | CtRel::WithParams | CtRel::CaseVariant) { format!("content-type:{},body:{blabel}", rel.label()) } else { format!("content-type:{}", rel.label()) };
+    let empty = req.body.as_ref().map_or(true, |b| b.is_empty());
+    let dec = if empty { Dec::Invalid } else { body_dec(f, req.body.as_deref().unwrap(), ct) };
+    // outcome under the reading "the Content-Type matches"
+    let matching = |dec: &Dec<String>| -> (Exp, Vec<Exp>, bool) {
+        if empty {
+            // matching type but no payload: "cannot be produced" and "not carried" are both defensible; an empty text is a text
+            let mut alts = vec![];
+            if optional { alts.push(Exp::Stop) }
+            if f == Fmt::Text { alts.push(Exp::Val(some(&show_text("")))) }
+            return (if optional { none.clone() } else { Exp::Stop }, alts, false)
+        }
+        match dec { Dec::Valid(v) => (Exp::Val(some(v)), vec![], false), Dec::Invalid => (Exp::Stop, vec![], false), Dec::Unclear => (Exp::Stop, vec![], true) }
+    };
+    // outcome under the reading "the request carries no item of this type"
+    let not_carried = if optional { none.clone() } else { Exp::Stop };
+    let why = match rel {
+        CtRel::CaseVariant => "content-type-in-another-case",
+        _ if empty => "matching-content-type-but-empty-body",
+        _ => if f == Fmt::Multipart { "multipart-outside-strict-reader" } else { "urlencoded-outside-clean-grammar" },
+    };
+    let (primary, alts, any) = match rel {
+        CtRel::Exact | CtRel::WithParams => matching(&dec),
+        // media types are case-insensitive (RFC 9110 8.3.1) but the statement does not say which comparison "matching" means
+        CtRel::CaseVariant => { let (p, mut a, any) = matching(&dec); if p != not_carried { a.push(not_carried) } (p, a, any) }
+        CtRel::Absent | CtRel::LongerPrefix | CtRel::OtherMentioning | CtRel::Other => (not_carried, vec![], false),
+    };
+    let trivial = matches!(rel, CtRel::Absent) && req.body.is_none();
+    let collision = matches!(rel, CtRel::WithParams | CtRel::LongerPrefix | CtRel::CaseVariant | CtRel::OtherMentioning);
+    Adm { primary, alts, any, why, feature, trivial, collision }
+}
+
+pub fn ref_slot(ty: SlotTy, name: &str, req: &Req) -> Adm {
+    match ty {
+        SlotTy::Param(p) => ref_param(p, &req.params[if name == "b" { 1 } else { 0 }]),
+        SlotTy::Item(f, opt) => ref_item(f, opt, req),
+    }
+}
+
+/* ================================================================================================
+   observation and judgement
+================================================================================================ */
+
+#[derive(Clone, Debug, PartialEq, Eq)]
+pub enum Obs {
+    /// the handler ran; echoed (slot, value) lines
+    Ran(Vec<(String, String)>),
+    /// no echo, error status
+    Stopped(u16),
+    Panic(String),
+    Broken(String),
+}
+
+pub fn observe(o: &Outcome) -> Obs {
+    match o {
+        Outcome::Response { parsed: Ok(p), .. } => {
+            let body = String::from_utf8_lossy(&p.body);
+            let ran = body == MARK || body.starts_with("RAN\n");
+            if ran {
+                if p.status != 200 { return Obs::Broken(format!("echo with status {}", p.status)) }
+                let mut lines = vec![];
+                for l in body.split('\n').skip(1) {
+                    match l.split_once('=') { Some((n, v)) => lines.push((n.to_string(), v.to_string())), None => return Obs::Broken("unreadable echo line".into()) }
+                }
+                Obs::Ran(lines)
+            } else if p.status >= 400 && p.status <= 599 { Obs::Stopped(p.status) }
+            else { Obs::Broken(format!("no echo but status {}", p.status)) }
+        }
+        Outcome::Panic(stage, m) => Obs::Panic(format!("panic@{stage}:{}", panic_kind(m))),
+        other => Obs::Broken(other.kind()),
+    }
+}
+
+fn exec(sub: &Subject, route: &RouteDesc, req: &Req) -> Obs { observe(&app::oneshot(&sub.router, &req.bytes(route))) }
+
+/// the same request with every slot except param slot `keep` made unremarkable (used only to attribute a stop/panic to one slot)
+fn isolate(route: &RouteDesc, req: &Req, keep: usize) -> Req {
+    let mut r = req.clone();
+    for (i, (name, ty)) in route.slots.iter().enumerate() {
+        if let SlotTy::Param(p) = ty { if keep != i { r.params[if *name == "b" { 1 } else { 0 }] = plain_segment(*p, *name == "b").to_vec(); } }
+    }
+    r.ctype = None; r.body = None;
+    r.query = if route.slots.iter().any(|(_, t)| matches!(t, SlotTy::Item(Fmt::Query, _))) { Some(b"s=a&n=7".to_vec()) } else { None };
+    r
+}
+
+static MAX_REQUEST_BYTES: std::sync::atomic::AtomicUsize = std::sync::atomic::AtomicUsize::new(0);
+
+fn obs_kind(o: &Obs) -> &'static str { match o { Obs::Ran(_) => "ran", Obs::Stopped(_) => "stopped", Obs::Panic(_) => "panic", Obs::Broken(_) => "broken" } }
+
+pub fn check_case(ctx: &mut Ctx, sub: &Subject, route: &RouteDesc, req: &Req) {
+    // requests beyond the 1 KiB connection buffer are C02/C06 territory
+    let raw = req.bytes(route);
+    if raw.len() > 1024 { ctx.skip(); return }
+    MAX_REQUEST_BYTES.fetch_max(raw.len(), std::sync::atomic::Ordering::Relaxed);
+    let adms: Vec<Adm> = route.slots.iter().map(|(n, t)| ref_slot(*t, n, req)).collect();
+    let obs = observe(&app::oneshot(&sub.router, &raw));
+    let nontrivial = adms.iter().any(|a| !a.trivial);
+    let collision = adms.iter().any(|a| a.collision);
+    let slot_id = |i: usize| format!("{}:{}", route.slots[i].0, route.slots[i].1.name());
+    let expected_json = |adms: &[Adm]| -> Value { json!(adms.iter().enumerate().map(|(i, a)| json!({"slot": slot_id(i), "feature": a.feature,
+        "expected": match &a.primary { Exp::Val(v) => v.clone(), Exp::Stop => "<handler must not run, error status>".into() },
+        "also_admitted": a.alts.iter().map(|e| match e { Exp::Val(v) => v.clone(), Exp::Stop => "<stop>".into() }).collect::<Vec<_>>(), "no_opinion": a.any})).collect::<Vec<_>>()) };
+    let witness = |adms: &[Adm], obs: &Obs| { let mut w = req.to_json(route); w["expected"] = expected_json(adms); w["observed"] = json!(format!("{obs:?}")); w };
+
+    // attribute a handler-level symptom (stop / panic / broken) to a slot: with several remarkable slots, find the one
+    // that reproduces the symptom kind alone -- a param within this route with everything else made plain, an item on
+    // the single-item route of the same type with the same query / Content-Type / body
+    let blame = || -> (String, String) {
+        if route.slots.len() == 1 { return (slot_id(0), adms[0].feature.clone()) }
+        let suspects: Vec<usize> = (0..adms.len()).filter(|i| !adms[*i].trivial).collect();
+        let kind = obs_kind(&obs);
+        for &i in &suspects {
+            let alone = match route.slots[i].1 {
+                SlotTy::Param(_) => exec(sub, route, &isolate(route, req, i)),
+                ty @ SlotTy::Item(..) => match sub.routes.iter().find(|r| r.imp == "I1" && r.slots[0].1 == ty) {
+                    Some(single) => exec(sub, single, &Req { params: vec![], ..req.clone() }),
+                    None => continue,
+                },
+            };
+            if obs_kind(&alone) == kind { return (slot_id(i), adms[i].feature.clone()) }
+        }
+        // no remarkable slot reproduces it alone: does the route fail even when every slot is unremarkable?
+        if obs_kind(&exec(sub, route, &isolate(route, req, usize::MAX))) == kind { return ("handler".into(), "all-slots-plain".into()) }
+        ("handler".into(), suspects.iter().map(|i| format!("{}={}", route.slots[*i].0, adms[*i].feature)).collect::<Vec<_>>().join("&"))
+    };
+
+    match &obs {
+        Obs::Ran(lines) => {
+            if lines.len() != route.slots.len() || lines.iter().zip(&route.slots).any(|((n, _), (sn, _))| n != sn) {
+                ctx.violation(&format!("C07/{}/handler/echo-shape/broken", route.imp), nontrivial, || witness(&adms, &obs));
+                return
+            }
+            let mut all_primary = true;
+            let mut why = "";
+            for (i, (_, v)) in lines.iter().enumerate() {
+                let a = &adms[i];
+                let e = Exp::Val(v.clone());
+                if a.primary == e { continue }
+                all_primary = false;
+                if why.is_empty() { why = a.why }
+                if a.admits(&e) { continue }
+                // the handler ran with a value this slot must not show
+                let optional = matches!(route.slots[i].1, SlotTy::Item(_, true));
+                let symptom = match (&a.primary, optional, v.as_str()) {
+                    (Exp::Stop, _, _) => "accepted-should-refuse",
+                    (Exp::Val(p), true, "None") if p != "None" => "none-though-carried",
+                    (Exp::Val(p), true, _) if p == "None" => "some-though-not-carried",
+                    _ => "wrong-value",
+                };
+                ctx.violation(&format!("C07/{}/{}/{}/{}", route.imp, slot_id(i), a.feature, symptom), nontrivial, || witness(&adms, &obs));
+                return
+            }
+            if all_primary { ctx.pass(&format!("ran:{}", route.imp), nontrivial, collision) } else { ctx.ambiguous(&format!("{why}:ran")) }
+        }
+        Obs::Stopped(status) => {
+            if adms.iter().any(|a| a.primary == Exp::Stop) { ctx.pass(&format!("stopped:{}:{status}", route.imp), nontrivial, collision) }
+            else if let Some(a) = adms.iter().find(|a| a.admits_stop()) { ctx.ambiguous(&format!("{}:stopped({status})", a.why)) }
+            else {
+                let (slot, feature) = blame();
+                ctx.violation(&format!("C07/{}/{}/{}/refused-should-accept({status})", route.imp, slot, feature), nontrivial, || witness(&adms, &obs));
+            }
+        }
+        Obs::Panic(kind) => {
+            let (slot, feature) = blame();
+            ctx.violation(&format!("C07/{}/{}/{}/{}", route.imp, slot, feature, kind), nontrivial, || witness(&adms, &obs));
+        }
+        Obs::Broken(kind) => {
+            let (slot, feature) = blame();
+            ctx.violation(&format!("C07/{}/{}/{}/broken:{}", route.imp, slot, feature, kind), nontrivial, || witness(&adms, &obs));
+        }
+    }
+}
+
+/* ================================================================================================
+   enumeration
+================================================================================================ */
+
+const CHUNK: usize = 4096;
+
+pub fn run_engine(ctx: &mut Ctx) {
+    let sub = match subject() { Ok(s) => s, Err(p) => { ctx.machinery_error(format!("C07: the catalogue application could not be built: {p}")); return } };
+    let quick = ctx.quick();
+    let (l1, l1t, l12, l2) = if quick { (5, 5, 4, 1) } else { (7, 6, 5, 3) };
+    let segs_by_len: Vec<Vec<Vec<u8>>> = (0..=l1).map(segments).collect();
+    let no_items = Req { params: vec![], query: None, ctype: None, body: None };
+
+    /* (1) one param: every segment of the alphabet, every param type, the four single-param impls */
+    for r in sub.routes.iter().filter(|r| matches!(r.imp.as_str(), "P1" | "T1" | "P1of2" | "T1of2")) {
+        let len = match r.imp.as_str() { "P1" => l1, "T1" => l1t, _ => l12 };
+        let segs = &segs_by_len[len];
+        let seconds: Vec<&[u8]> = if r.route_params == 2 { vec![b"x", b"7"] } else { vec![b""] };
+        for chunk in segs.chunks(CHUNK) {
+            if !ctx.mine() { continue }
+            if ctx.out_of_time() { break }
+            for s in chunk { for b in &seconds {
+                let mut req = no_items.clone();
+                req.params = if r.route_params == 2 { vec![s.clone(), b.to_vec()] } else { vec![s.clone()] };
+                check_case(ctx, &sub, r, &req);
+            } }
+        }
+    }
+
+    /* (2) two params: every pair of short / boundary segments for every pair of types */
+    let segs2 = &segs_by_len[l2];
+    for r in sub.routes.iter().filter(|r| r.imp == "T2") {
+        for chunk in segs2.chunks(16) {
+            if !ctx.mine() { continue }
+            if ctx.out_of_time() { break }
+            for a in chunk { for b in segs2.iter() {
+                let mut req = no_items.clone();
+                req.params = vec![a.clone(), b.clone()];
+                check_case(ctx, &sub, r, &req);
+            } }
+        }
+    }
+
+    /* (3) extractor sets: Content-Type × body × query (× a few param segments where the signature has params) */
+    let cts = content_types();
+    let bods = bodies();
+    let qs = queries();
+    for r in sub.routes.iter().filter(|r| r.pattern.starts_with("/s/")) {
+        if !ctx.mine() { continue }
+        if ctx.out_of_time() { break }
+        let has_query = r.slots.iter().any(|(_, t)| matches!(t, SlotTy::Item(Fmt::Query, _)));
+        let n_params = r.slots.iter().filter(|(_, t)| matches!(t, SlotTy::Param(_))).count();
+        let nq = if !has_query { 2 } else if quick && n_params > 0 { 4 } else { qs.len() };
+        // param segments: a plain one, one with trailing garbage / an escape, one that cannot be the type
+        // (the two slots never get the same segment, so that a mix-up of the slots shows)
+        let choices = |t: PTy, second: bool| -> Vec<&'static [u8]> { match (t.is_int(), second) {
+            (true, false) => vec![b"7", b"7a", b"%37", b"-"], (true, true) => vec![b"8", b"8b", b"%38", b"+"],
+            (false, false) => vec![b"x", b"%31a", b"%FF"], (false, true) => vec![b"y", b"%32b", b"%FE"],
+        } };
+        let ptys: Vec<PTy> = r.slots.iter().filter_map(|(_, t)| if let SlotTy::Param(p) = t { Some(*p) } else { None }).collect();
+        let mut combos: Vec<Vec<Vec<u8>>> = vec![];
+        match ptys.len() {
+            0 => combos.push(vec![]),
+            1 => for a in choices(ptys[0], false) { combos.push(vec![a.to_vec()]) },
+            _ => for (i, a) in choices(ptys[0], false).into_iter().enumerate() { for (j, b) in choices(ptys[1], true).into_iter().enumerate() {
+                if quick && i > 0 && j > 0 { continue }
+                combos.push(vec![a.to_vec(), b.to_vec()])
+            } },
+        }
+        if quick && ptys.len() == 1 { combos.truncate(3) }
+        for params in &combos { for ct in &cts { for (_, body) in &bods { for (_, q) in qs.iter().take(nq) {
+            let req = Req { params: params.clone(), query: q.clone(), ctype: ct.clone(), body: body.clone() };
+            check_case(ctx, &sub, r, &req);
+        } } } }
+    }
+
+    let n = |f: &dyn Fn(&RouteDesc) -> bool| sub.routes.iter().filter(|r| f(r)).count();
+    ctx.sample(|| json!({"catalogue_routes": sub.routes.len(), "example_signatures": sub.routes.iter().filter(|r| r.imp == "T2+I4" || r.imp == "P1").take(3).map(|r| json!({"route": r.pattern, "impl": r.imp, "slots": r.slots.iter().map(|(n, t)| format!("{n}:{}", t.name())).collect::<Vec<_>>() })).collect::<Vec<_>>() }));
+    ctx.sample(|| { let r = sub.routes.iter().find(|r| r.pattern == "/p1/u8/:a").unwrap(); let req = Req { params: vec![b"%31".to_vec()], ..no_items.clone() }; json!({"request": esc(&req.bytes(r)), "observed": format!("{:?}", exec(&sub, r, &req))}) });
+    ctx.sample(|| { let r = sub.routes.iter().find(|r| r.pattern == "/s/i2/q1j2u0m0t0").unwrap(); let req = Req { params: vec![], query: Some(b"s=a&n=7".to_vec()), ctype: Some("application/json; charset=utf-8".into()), body: Some(br#"{"s":"a","n":7}"#.to_vec()) }; json!({"request": esc(&req.bytes(r)), "observed": format!("{:?}", exec(&sub, r, &req))}) });
+    ctx.extra.insert("rule".into(), json!("case = (handler signature of the compile-time catalogue, request); every case is a distinct (route, request) pair by construction; the request goes through the real Request::read / Router::handle / Response::send and the handler's echo of its typed arguments is compared slot by slot with the reference (str::parse on the percent-decoded segment, serde_json, split-on-&/= decoder, strict multipart reader, UTF-8 check). non-trivial = some slot's input is not a plain in-range value / an absent item; collision = some slot's input is one where a prefix or partial reading differs from the whole reading (digits followed by other bytes, values beyond the type's or the machine's width, leading zeros / signs, percent-escapes, Content-Type with parameters / in another case / a longer type with the same prefix)"));
+    ctx.extra.insert("distinct_by_construction".into(), json!(true));
+    ctx.extra.insert("max_request_bytes".into(), json!(MAX_REQUEST_BYTES.load(std::sync::atomic::Ordering::Relaxed)));
+    ctx.extra.insert("bounds".into(), json!({
+        "catalogue": {"routes": sub.routes.len(), "single-param (P, (P,), each also on a two-param route) x 13 types": n(&|r| r.slots.len() == 1 && matches!(r.slots[0].1, SlotTy::Param(_))),
+                      "two-param (P1,P2) over 13 x 13 types": n(&|r| r.imp == "T2"), "extractor-set routes (210 sets of 1..4 items from 5 extractors x {absent, required, Option}, each under the no-param form and one of the three param forms, + the no-argument handler)": n(&|r| r.pattern.starts_with("/s/"))},
+        "param_alphabet": ALPHA.iter().map(|t| esc(t)).collect::<Vec<_>>(),
+        "segment_max_tokens": {"P": l1, "(P,)": l1t, "one-param handler on two-param route": l12, "(P1,P2) each": l2},
+        "segments": {"P": segs_by_len[l1].len(), "(P,)": segs_by_len[l1t].len(), "one-of-two": segs_by_len[l12].len(), "(P1,P2) each": segs2.len()},
+        "boundary_segments": boundary_segments().len(),
+        "content_types": cts.len(), "bodies": bods.len(), "queries": qs.len(),
+        "request_bytes_limit": 1024,
+    }));
+}
+
+pub fn run(ctx: &mut Ctx) { app::pin_clock(); run_engine(ctx) }
+
+pub fn replay(ctx: &mut Ctx, case: &Value) {
+    app::pin_clock();
+    let sub = match subject() { Ok(s) => s, Err(p) => { ctx.machinery_error(format!("C07: the catalogue application could not be built: {p}")); return } };
+    let Some(pattern) = case.get("route").and_then(|r| r.as_str()) else { ctx.machinery_error("C07 replay: no `route`".into()); return };
+    let Some(route) = sub.routes.iter().find(|r| r.pattern == pattern) else { ctx.machinery_error(format!("C07 replay: route {pattern} is not in the catalogue")); return };
+    let Some(req) = Req::from_json(case) else { ctx.machinery_error("C07 replay: unreadable request".into()); return };
+    if req.params.len() != route.route_params { ctx.machinery_error(format!("C07 replay: {} params for route {pattern}", req.params.len())); return }
+    check_case(ctx, &sub, route, &req);
+}
+
+#[cfg(test)]
+mod t {
+    use super::*;
+    #[test] fn reference_selftest() {
+        assert_eq!(pct_decode(b"a%20b%31"), Some(b"a b1".to_vec()));
+        assert_eq!(pct_decode(b"%3"), None);
+        assert_eq!(urlenc_sn(b"s=a&n=7"), Dec::Valid(("a".into(), 7)));
+        assert_eq!(urlenc_sn(b"n=65535&z=1&s=a.b"), Dec::Valid(("a.b".into(), 65535)));
+        assert_eq!(urlenc_sn(b"s=%31a%20&n=0"), Dec::Valid(("1a ".into(), 0)));
+        assert_eq!(urlenc_sn(b"s=a"), Dec::Invalid);
+        assert_eq!(urlenc_sn(b"s=a&n=65536"), Dec::Invalid);
+        assert_eq!(urlenc_sn(b"s=a+b&n=7"), Dec::Unclear);
+        assert_eq!(urlenc_sn(b"s=a&n=%37"), Dec::Unclear);
+        assert_eq!(multipart_st(&mp(&[("s", "a"), ("t", "b c")], true), Some(BOUNDARY)), Dec::Valid(("a".into(), "b c".into())));
+        assert_eq!(multipart_st(&mp(&[("t", "b"), ("z", "1"), ("s", "a")], true), Some(BOUNDARY)), Dec::Valid(("a".into(), "b".into())));
+        assert_eq!(multipart_st(&mp(&[("s", "a")], true), Some(BOUNDARY)), Dec::Invalid);
+        assert_eq!(multipart_st(&mp(&[("s", "a"), ("t", "b")], false), Some(BOUNDARY)), Dec::Invalid);
+        assert_eq!(multipart_st(b"hello", Some(BOUNDARY)), Dec::Invalid);
+        assert_eq!(int_feature(PTy::U8, "255"), "max");
+        assert_eq!(int_feature(PTy::U8, "256"), "above-max:fits-i64");
+        assert_eq!(int_feature(PTy::I64, "-9223372036854775808"), "i64-min");
+        assert_eq!(int_feature(PTy::I64, "9223372036854775808"), "above-max:fits-u64");
+        assert_eq!(int_feature(PTy::U64, "18446744073709551616"), "above-max:beyond-u64");
+        assert_eq!(int_feature(PTy::U8, "12abc"), "trailing-garbage");
+        assert_eq!(int_feature(PTy::U8, "007"), "in-range+leading-zero");
+        assert_eq!(int_feature(PTy::I8, "-9223372036854775808"), "i64-min:below-min");
+        assert_eq!(ct_relation(Fmt::Json, Some("application/jsonx")), CtRel::LongerPrefix);
+        assert_eq!(ct_relation(Fmt::Json, Some("application/json; charset=utf-8")), CtRel::WithParams);
+        assert_eq!(ct_relation(Fmt::Multipart, Some("multipart/form-data; boundary=XbX")), CtRel::Exact);
+    }
+}
